@@ -64,6 +64,19 @@ def pat(rng, n, name):
         l = [0] * n
         for _ in range(max(1, n // 16)):
             l[rng.randrange(n)] = rng.choice([1, MAX, rng.randrange(1, B)])
+    elif name == "magic":                   # few digits from a pool of arithmetic "magic" values, top digit set
+        # (multiples / inverses of 3 and 5, halves, all-ones, single bits): with sparse operands each interpolation
+        # coefficient of Karatsuba / Toom-3 is (a product of) isolated digits, so an exact-division or carry trick that
+        # is wrong for one digit VALUE is hit directly (C02-y1: division by 3 via the modular inverse, borrow threshold
+        # off by one for the quotient digit 0xAAAA…AAAB)
+        pool = [1, 2, 3, 5, MAX, MAX - 1, MAX - 2, 1 << 63, (1 << 63) - 1, (1 << 63) + 1, 0x5555555555555555, 0x5555555555555556,
+                0xAAAAAAAAAAAAAAAA, 0xAAAAAAAAAAAAAAAB, 0xAAAAAAAAAAAAAAAC, 0x3333333333333333, 0xCCCCCCCCCCCCCCCD, MAX // 3, MAX // 3 * 2 + 1,
+                MAX // 5, 1 << 32, (1 << 32) - 1]
+        l = [0] * n
+        for _ in range(rng.choice([1, 2, 3])):
+            l[rng.randrange(n)] = rng.choice(pool)
+        l[0] = l[0] or rng.choice([0, 1, 1, rng.choice(pool)])
+        l[-1] = rng.choice([1, 1, rng.choice(pool)])
     elif name == "lowzero":                 # trailing (least significant) zero digits
         z = rng.randrange(1, n) if n > 1 else 0
         l = [0] * z + [rng.randrange(B) for _ in range(n - z)]
@@ -117,9 +130,10 @@ PAIRS = [("rand", "rand"), ("ones", "ones"), ("bk", "rand"), ("rand", "bk_top"),
          ("thirds_alt", "thirds_alt"), ("thirds_neg2", "ones"), ("maxm1", "ones"), ("small", "small"),
          ("lowzero", "lowzero"), ("ones", "bk"), ("mixed", "runs"), ("half", "rand"),
          ("lo1_hiones", "lo1_hiones"), ("lo1_hiones", "hi1_loones"), ("hi1_loones", "hi1_loones"), ("onebit", "onebit"),
-         ("onebit", "lo1_hiones")]
+         ("onebit", "lo1_hiones"), ("magic", "magic"), ("magic", "magic"), ("magic", "bk"), ("magic", "ones")]
 # pairs that are never sampled away once the recursive regimes are entered (nested cross terms with extreme carries)
-ALWAYS = [("lo1_hiones", "lo1_hiones"), ("lo1_hiones", "hi1_loones"), ("onebit", "onebit"), ("hi1_loones", "onebit")]
+ALWAYS = [("lo1_hiones", "lo1_hiones"), ("lo1_hiones", "hi1_loones"), ("onebit", "onebit"), ("hi1_loones", "onebit"),
+          ("magic", "magic"), ("magic", "magic"), ("magic", "magic")]
 
 def short_lengths(tS, tK, tier, rng):
     s = [1, 2, 3]
@@ -214,6 +228,24 @@ def gen(rng, tier):
             a = pat(rng, n, pa)
             reqs.append("C02 u.mul %s %s" % (wl(a), wl(a)))
             reqs.append("C02 u.mul %s %s" % (wl(a), wl(pat(rng, n + rng.randrange(0, 4), pa))))
+    # sparse "magic digit" operands in every regime: a unit-sparse operand (digits 1 at a few places) times an operand with a
+    # few magic digits makes the interpolation coefficients (products of) isolated digit values, so an exact-division,
+    # halving or carry trick that is wrong for ONE digit value is hit on purpose (C02-y1).  Cheap: the operands are sparse.
+    magic = [MAX, MAX - 1, 1 << 63, (1 << 63) + 1, 0x5555555555555555, 0x5555555555555556, 0xAAAAAAAAAAAAAAAA, 0xAAAAAAAAAAAAAAAB,
+             0xAAAAAAAAAAAAAAAC, MAX // 3, 2 * (MAX // 3) + 1, 0x3333333333333333, 0xCCCCCCCCCCCCCCCD, 3, 5, 1 << 32]
+    regimes = [(tS + 2, tS + 5), (2 * tS + 3, 2 * tS + 3), (tK - 3, tK), (tK + 1, tK + 1), (tK + 44, tK + 44), (tK + 44, tK + 90), (tK + 20, 2 * tK + 30)]
+    for (n, m) in regimes:
+        for mg in (magic if tier == "thorough" else rng.sample(magic, 6) + [0xAAAAAAAAAAAAAAAB, 0x5555555555555556]):
+            x = [0] * n
+            x[0] = 1; x[-1] = 1
+            if rng.randrange(2):
+                x[rng.randrange(n)] = 1
+            y = [0] * m
+            y[0] = rng.choice([1, 1, mg]); y[-1] = 1
+            y[rng.randrange(1, m - 1)] = mg
+            if rng.randrange(3) == 0:
+                y[rng.randrange(1, m - 1)] = rng.choice(magic)
+            emit(reqs, rng, x, y)
     # Toom-3 with nested Karatsuba / Toom-3 (shorter operand well above tKara)
     deep = [(3 * tK + 1, 3 * tK + 1), (3 * tK + 5, 4 * tK), (tK + 1, 2 * tK + 1)]
     if tier == "thorough":
